@@ -1,5 +1,149 @@
-/- dynamic part of the driver (replay of real traces, monitors) -/
+/-
+  dynamic part of the driver: replay of a real trace (translated by harness/dyn_replay.py into model
+  events + the reactions observed on the implementation) through the executable model.
+
+  request:  replayA <cfg tokens> ev=<e1;e2;…>
+  answer:   ok <n>                                  every event accepted, every observed reaction = prescribed
+            reject <i> <component> <detail>         first difference (i = index of the event)
+-/
+import AJ.Model.Run
+import AJ.Model.Full
 namespace AJ.Dyn
-def isDynCmd (_cmd : String) : Bool := false
-def handle (_cmd : String) (_toks : List String) : String := "bad-request"
+open AJ.Run
+
+def parseNats (s : String) : Option (List Nat) :=
+  if s.isEmpty || s = "-" then some [] else (s.splitOn ",").mapM (·.toNat?)
+
+def parseMapNat (s : String) : Option (List (Nat × Nat)) :=
+  if s.isEmpty || s = "-" then some [] else
+  (s.splitOn ",").mapM fun e =>
+    match e.splitOn ":" with
+    | [k, v] => do pure (← k.toNat?, ← v.toNat?)
+    | _ => none
+
+def parseMapList (s : String) : Option (List (Nat × List Nat)) :=
+  if s.isEmpty || s = "-" then some [] else
+  (s.splitOn "|").mapM fun e =>
+    match e.splitOn ":" with
+    | [k, v] => do pure (← k.toNat?, ← parseNats v)
+    | _ => none
+
+def kvOf (toks : List String) : List (String × String) :=
+  toks.filterMap fun tok =>
+    match tok.splitOn "=" with
+    | k :: rest => some (k, "=".intercalate rest)
+    | _ => none
+
+def getKV (kv : List (String × String)) (k : String) : Option String := (kv.find? (·.1 = k)).map (·.2)
+
+def look {α : Type} (m : List (Nat × α)) (k : Nat) : Option α := (m.find? (·.1 = k)).map (·.2)
+
+def parseCfg (kv : List (String × String)) : Option Cfg := do
+  let n ← (← getKV kv "n").toNat?
+  let P ← parseNats (← getKV kv "P")
+  let S ← parseNats (← getKV kv "S")
+  let R ← parseMapList (← getKV kv "R")
+  let C ← parseNats (← getKV kv "C")
+  let F ← parseNats (← getKV kv "F")
+  let W ← parseMapNat (← getKV kv "W")
+  let T ← parseMapNat (← getKV kv "T")
+  let X ← parseMapNat (← getKV kv "X")
+  let pure_ ← getKV kv "pure"
+  pure { n := n, parent := fun j => P.getD j 0, isSched := fun j => j ∈ S,
+         req := fun j => (look R j).getD [], critical := fun j => j ∈ C, forever := fun j => j ∈ F,
+         window := fun j => (look W j).getD 0, timeout := look T, sdTimeout := look X,
+         topPure := pure_ = "1" }
+
+def parseRes (s : String) : Option (Option Res) :=
+  if s = "c" then some none
+  else if s = "own" then some (some .retOwn)
+  else if s = "t" then some (some (.retBool true))
+  else if s = "f" then some (some (.retBool false))
+  else if s.startsWith "xj" then (s.drop 2).toString.toNat?.map fun k => some (.exc (.byJob k))
+  else if s.startsWith "xt" then (s.drop 2).toString.toNat?.map fun k => some (.exc (.tmo k))
+  else none
+
+def showNats (l : List Nat) : String := ",".intercalate ((l.toArray.qsort (· < ·)).toList.map toString)
+
+def sameSet (a b : List Nat) : Bool := a.all (· ∈ b) && b.all (· ∈ a)
+
+/-- jobs that became queued in this step -/
+def newlyQueued (c : Cfg) (st st' : StA) : List Nat :=
+  (List.range c.n).filter fun k => st.ph k == .idle && st'.ph k == .queued
+
+/-- one translated event of layer A: the event, the `done` set observed (for wait-returns) and the set
+    of jobs the implementation started in reaction -/
+structure ObsA where
+  ev      : EvA
+  done    : Option (List Nat)
+  started : Option (List Nat)
+
+def parseEvA (s : String) : Option ObsA :=
+  match s.splitOn " " with
+  | ["B", st] => do pure ⟨.runBegin, none, some (← parseNats st)⟩
+  | ["G", j, st] => do pure ⟨.grant (← j.toNat?), none, some (← parseNats st)⟩
+  | ["E", j, ok] => do pure ⟨.bodyEnd (← j.toNat?) (ok = "1"), none, none⟩
+  | ["A", j] => do pure ⟨.cancelAck (← j.toNat?), none, none⟩
+  | ["W", s, lv, K, D, st] => do
+    pure ⟨.waitReturn (← s.toNat?) (lv = "1") (← parseNats K), some (← parseNats D), some (← parseNats st)⟩
+  | ["L", s, K] => do pure ⟨.leave (← s.toNat?) (← parseNats K), none, some []⟩
+  | ["F", s, r] => do pure ⟨.finish (← s.toNat?) (← parseRes r), none, none⟩
+  | ["T", d] => do pure ⟨.tick (← d.toNat?), none, none⟩
+  | _ => none
+
+/-- why `stepA` refuses an event (diagnostic only) -/
+def whyRejectA (c : Cfg) (st : StA) : EvA → String
+  | .grant j => s!"grant {j}: ph={repr (st.ph j)} creq={st.creq j} slotFree={slotFree c st (c.parent j)} q={st.qcount (c.parent j)}"
+  | .bodyEnd j _ => s!"bodyEnd {j}: ph={repr (st.ph j)} creq={st.creq j}"
+  | .cancelAck j => s!"cancelAck {j}: ph={repr (st.ph j)} creq={st.creq j}"
+  | .waitReturn s _ K => s!"waitReturn {s}: pc={repr (st.pc s)} D={doneSet c st s} K={K}"
+  | .leave s K => s!"leave {s}: pc={repr (st.pc s)} K={K}"
+  | .finish s _ => s!"finish {s}: pc={repr (st.pc s)} ph={repr (st.ph s)}"
+  | .tick _ =>
+    let g := (List.range c.n).filter fun j => 0 < j && st.ph j == .queued && !st.creq j && slotFree c st (c.parent j)
+    let w := (List.range c.n).filter fun s => c.isSched s && st.pc s == .loop && !(doneSet c st s).isEmpty
+    s!"tick: grantable={g} waitable={w}"
+  | .runBegin => "runBegin"
+
+def replayA (c : Cfg) (evs : List ObsA) : String := Id.run do
+  let mut st := StA.init
+  let mut i := 0
+  for o in evs do
+    -- A1: the done set handed over is exactly the finished, not yet reported jobs
+    match o.ev, o.done with
+    | .waitReturn s _ _, some D =>
+      if !sameSet D (doneSet c st s) then
+        return s!"reject {i} env:A1 wait-return of {s} observed={showNats D} model={showNats (doneSet c st s)}"
+    | _, _ => pure ()
+    match stepA c st o.ev with
+    | none => return s!"reject {i} env:guard {whyRejectA c st o.ev}"
+    | some st' =>
+      match o.started with
+      | some S =>
+        let S' := newlyQueued c st st'
+        if !sameSet S S' then
+          return s!"reject {i} impl:start event={repr o.ev} observed={showNats S} model={showNats S'}"
+      | none => pure ()
+      if st'.dbl then return s!"reject {i} impl:start a task was created twice"
+      st := st'
+    i := i + 1
+  return s!"ok {i}"
+
+def isDynCmd (cmd : String) : Bool := cmd = "replayA" || cmd = "replayB"
+
+def handle (cmd : String) (toks : List String) : String :=
+  let kv := kvOf toks
+  match parseCfg kv with
+  | none => "bad-request cfg"
+  | some c =>
+    if !c.wf then "bad-request cfg-not-wf" else
+    match getKV kv "ev" with
+    | none => "bad-request ev"
+    | some evs =>
+      if cmd = "replayA" then
+        match (evs.splitOn ";").filter (· ≠ "") |>.mapM (fun s => parseEvA (s.replace "_" " ")) with
+        | none => "bad-request event"
+        | some l => replayA c l
+      else AJ.Full.handleB c evs
+
 end AJ.Dyn
